@@ -18,7 +18,7 @@ RULES = {
     'L': contracts.rule_L, 'K': contracts.rule_K, 'E1': contracts.rule_E1, 'E2': contracts.rule_E2, 'E3': contracts.rule_E3,
     'E6': contracts.rule_E6, 'E7': contracts.rule_E7, 'D2': contracts.rule_D2, 'E9': contracts.rule_E9, 'E4': contracts.rule_E4,
     'E10': contracts.rule_E10, 'E11': contracts.rule_E11, 'OPT': contracts.rule_OPT, 'OPTDEP': contracts.rule_OPTDEP, 'EQ1': contracts.rule_EQ1,
-    'C': stream.rule_C, 'POSW': stream.rule_POSW, 'B1': stream.rule_B1, 'POST': stream.rule_POST, 'RB': stream.rule_RB,
+    'C': stream.rule_C, 'POSW': stream.rule_POSW, 'B1': stream.rule_B1, 'POST': stream.rule_POST, 'RB': stream.rule_RB, 'NOMOVE': stream.rule_NOMOVE,
     'I': dims.rule_I, 'B3': dims.rule_B3, 'N2a': dims.rule_N2a,
     'B2': mutate.rule_B2, 'WB': mutate.rule_WB, 'N1': mutate.rule_N1, 'N2': mutate.rule_N2, 'N5': mutate.rule_N5,
     'E5': ingest.rule_E5, 'CHOKE': ingest.rule_CHOKE, 'LV': ingest.rule_LV,
@@ -144,7 +144,7 @@ _p('C01', ['K', 'E6', 'J2', 'A10', 'A1', 'A11'],
    explanation="Class-provenance typing of every return of the operator/slicing methods per concrete class; sibling guard "
                "comparison; call-graph reachability to field reads.")
 
-_p('C06', ['C', 'POSW', 'B1', 'POST', 'RB', 'E7', 'D2', 'J1', 'J2', 'OPT'],
+_p('C06', ['C', 'POSW', 'B1', 'POST', 'RB', 'NOMOVE', 'E7', 'D2', 'J1', 'J2', 'OPT', 'CHOKE'],
    decided=["0 <= pos <= len in its structural part: _pos is definitely assigned on every escaping stream object; every "
             "_pos write is 0, the length, a validated/restored/found position, pos+len after a validated pos, or a "
             "bounded/checked increment; every effect that can change a BitStream's length is covered by stream-level "
